@@ -455,51 +455,118 @@ def cleanup_runs():
 
 # ------------------------------------------------------------------ generic G-binding replay
 
+def g_triage(rep, binary, recs, sig_fn, args=(), max_repro=40, totals=None):
+    """Triage harness records: sum stat records, reproduce each distinct mismatch signature in a
+    fresh process before reporting it."""
+    totals = totals if totals is not None else {}
+    bad = {}
+    for r in recs:
+        k = r.get('k')
+        if k == 'stat':
+            for kk, vv in r.items():
+                if isinstance(vv, int) and kk != 'k':
+                    totals[kk] = totals.get(kk, 0) + vv
+        elif k == 'mismatch':
+            sg = sig_fn(r)
+            bad.setdefault(json.dumps(sg, sort_keys=True), (sg, r))
+        elif k in ('terminate', 'signal'):
+            try:
+                case = json.loads(r['case'])
+            except Exception:
+                case = r.get('case')
+            sg = {'crash': k, 'what': str(r.get('what', r.get('sig')))}
+            sg.update(sig_fn({'case': case, 'crash': True}))
+            bad.setdefault(json.dumps(sg, sort_keys=True), (sg, dict(r, case=case)))
+        elif k in ('crash', 'garbage'):
+            if not any(x.get('k') in ('terminate', 'signal') for x in recs):
+                raise InfraError('harness shard failed without naming a case: %s' % json.dumps(r)[:1500])
+    n = 0
+    for key, (sg, r) in bad.items():
+        n += 1
+        if n > max_repro:
+            rep.notes.append('more than %d distinct mismatch signatures; remaining not reproduced' % max_repro)
+            break
+        again = run_one(binary, r['case'], args=args)
+        ok = False
+        for r2 in again:
+            if r2.get('k') == 'mismatch' and json.dumps(sig_fn(r2), sort_keys=True) == key:
+                ok = True
+            if r2.get('k') in ('terminate', 'signal', 'crash') and 'crash' in sg:
+                ok = True
+        if ok:
+            detail = {k2: v2 for k2, v2 in r.items() if k2 not in ('case',)}
+            rep.violation(sg, r['case'], detail)
+        else:
+            rep.notes.append('unreproduced mismatch dropped: %s' % key[:300])
+    return totals
+
+
 def g_replay(rep, binary, gens, sig_fn, args=(), max_repro=40, label=''):
-    """Replay generated cases (list of (path, meta)) through a harness binary.
-    Mismatch records must carry 'case'.  Each distinct signature is reproduced
-    in a fresh process before it is reported."""
+    """Replay generated cases (list of (path, meta)) through a harness binary (G binding)."""
     totals = {}
     for path, meta in gens:
         rep.add_tlc(meta)
         recs = run_shards(binary, path, args=args)
-        bad = {}
-        for r in recs:
-            k = r.get('k')
-            if k == 'stat':
-                for kk, vv in r.items():
-                    if isinstance(vv, int) and kk != 'k':
-                        totals[kk] = totals.get(kk, 0) + vv
-            elif k == 'mismatch':
-                sg = sig_fn(r)
-                bad.setdefault(json.dumps(sg, sort_keys=True), (sg, r))
-            elif k in ('terminate', 'signal'):
-                try:
-                    case = json.loads(r['case'])
-                except Exception:
-                    case = r.get('case')
-                sg = {'crash': k, 'what': str(r.get('what', r.get('sig')))}
-                sg.update(sig_fn({'case': case, 'crash': True}))
-                bad.setdefault(json.dumps(sg, sort_keys=True), (sg, dict(r, case=case)))
-            elif k in ('crash', 'garbage'):
-                if not any(x.get('k') in ('terminate', 'signal') for x in recs):
-                    raise InfraError('harness shard failed without naming a case: %s' % json.dumps(r)[:1500])
-        n = 0
-        for key, (sg, r) in bad.items():
-            n += 1
-            if n > max_repro:
-                rep.notes.append('more than %d distinct mismatch signatures; remaining not reproduced' % max_repro)
-                break
-            again = run_one(binary, r['case'], args=args)
-            ok = False
-            for r2 in again:
-                if r2.get('k') == 'mismatch' and json.dumps(sig_fn(r2), sort_keys=True) == key:
-                    ok = True
-                if r2.get('k') in ('terminate', 'signal', 'crash') and 'crash' in sg:
-                    ok = True
-            if ok:
-                detail = {k2: v2 for k2, v2 in r.items() if k2 not in ('case',)}
-                rep.violation(sg, r['case'], detail)
-            else:
-                rep.notes.append('unreproduced mismatch dropped: %s' % key[:300])
+        g_triage(rep, binary, recs, sig_fn, args=args, max_repro=max_repro, totals=totals)
     return totals
+
+
+# ------------------------------------------------------------------ generic V-binding trace validation
+
+DEPTH_RE = re.compile(r'The depth of the complete state graph search is (\d+)')
+
+
+def _validate_shard(module, cfg, lines, base, tag, timeout, max_fail):
+    """returns (n_validated, [global indices of rejected lines], states, transitions)"""
+    rejected = []
+    d = ensure(os.path.join(WORK, 'run'))
+    off = 0
+    nval = 0
+    gen = dist = 0
+    while off < len(lines):
+        path = os.path.join(d, 'trace-%d-%s-%d.ndjson' % (os.getpid(), tag, off))
+        with open(path, 'w') as fh:
+            fh.write('\n'.join(lines[off:]) + '\n')
+        try:
+            ok, r = tlc_trace(module, path, cfg=cfg, timeout=timeout, xmx='3g', deque=True)
+        finally:
+            os.unlink(path)
+        gen += r['generated']
+        dist += r['distinct']
+        if ok:
+            nval += len(lines) - off
+            break
+        m = DEPTH_RE.search(r['tail'])
+        if 'ostcondition' not in r['tail'] or not m:
+            raise InfraError('trace validation failed to run (%s):\n%s' % (module, r['tail'][-3000:]))
+        k = int(m.group(1))           # 1-based index (within this file) of the first line the spec refused
+        if k < 1 or k > len(lines) - off:
+            raise InfraError('trace validation: implausible depth %d for %d lines:\n%s' % (k, len(lines) - off, r['tail'][-1500:]))
+        rejected.append(base + off + k - 1)
+        nval += k - 1
+        off += k
+        if len(rejected) >= max_fail:
+            break
+    return nval, rejected, dist, gen
+
+
+def validate_traces(module, cfg, lines, nshards=None, timeout=1500, max_fail=10):
+    """Validate trace lines (list of JSON strings, each an independent execution or event) with a TLC trace
+    spec, in parallel shards.  Returns dict(validated=, rejected=[indices], states=, transitions=)."""
+    from concurrent.futures import ThreadPoolExecutor
+    n = len(lines)
+    if n == 0:
+        return dict(validated=0, rejected=[], states=0, transitions=0)
+    nshards = max(1, min(nshards or NCPU, (n + 499) // 500))
+    size = (n + nshards - 1) // nshards
+    jobs = [(i * size, lines[i * size:(i + 1) * size]) for i in range(nshards) if lines[i * size:(i + 1) * size]]
+    out = dict(validated=0, rejected=[], states=0, transitions=0)
+    with ThreadPoolExecutor(max_workers=len(jobs)) as ex:
+        futs = [ex.submit(_validate_shard, module, cfg, ls, base, 's%d' % i, timeout, max_fail) for i, (base, ls) in enumerate(jobs)]
+        for f in futs:
+            nval, rej, dist, gen = f.result()
+            out['validated'] += nval
+            out['rejected'] += rej
+            out['states'] += dist
+            out['transitions'] += gen
+    return out
